@@ -132,6 +132,9 @@ package dns
 //@   ensures frame: r.step == old(r.step) && r.start == old(r.start) && r.end == old(r.end) && len(r.s) == old(len(r.s)) && r.lex == old(r.lex)
 //@   assert at "fmt.Fprintf(&r.mod, mod, r.cur+offset)" nooverflow: -9223372036854775808 <= r.cur + offset && r.cur + offset <= 9223372036854775807
 //@   ensures advance: r.cur == old(r.cur) || (ret0 == '\n' && (r.eof || r.cur > old(r.cur)))
+// a template octet that is neither $ nor a backslash is handed on: itself, or - when a backslash is still owed,
+// because it turned out not to escape a $ or a backslash - that backslash first, with the octet presented again
+//@   exit plain: ret1 == nil && r.s[si] != '\\' && r.s[si] != '$' ==> ret0 == r.s[si] || (ret0 == '\\' && r.si == si && !r.escape)
 //@ func (*generateReader).parseError [C06 C07]
 //@   requires r != nil && r.lex != nil && 1 <= r.si && r.si - 1 <= end && end <= len(r.s)
 //@   ensures r.eof && ret0 != nil
